@@ -213,6 +213,24 @@ def _run_scenario(sc):
     return failures, ncommits, corr
 
 
+def sys_tie(res, scs):
+    """history-level model (Model/Sys.lean, partial commits) vs the binary: predicted vs written notes,
+    for files outside the two known-finding families (which the model idealises away / mirrors)"""
+    ncmp, nbad, first = 0, 0, None
+    for sc in scs:
+        if "_observed" not in sc:
+            continue
+        n2, bad2 = S.sys_compare(sc, sc.pop("_observed"), C.run_driver, skip_paths=sc.pop("_skip", []), commit_ok=sc.pop("_commit_ok", None))
+        ncmp += n2; nbad += len(bad2)
+        if bad2 and first is None:
+            first = {"seed": sc["seed"], "disagreement": bad2[0]}
+    res.obligation("correspondence:sys-e2e (Sys model's predicted notes incl. partial commits vs notes written by the binary)", nbad == 0, "correspondence")
+    cs = res.extra.setdefault("correspondence", {}).setdefault("sys-e2e", {"compared": 0, "disagreements": 0})
+    cs["compared"] += ncmp; cs["disagreements"] += nbad
+    if nbad:
+        res.broken_tie("correspondence:sys-e2e", {"disagreements": nbad, "of": ncmp, "first": first})
+
+
 def phase_e2e(res, seeds, threads=16):
     scs = [gen_scenario(s) for s in seeds]
     for k, sc in enumerate(scs):
@@ -225,20 +243,7 @@ def phase_e2e(res, seeds, threads=16):
     res.extra.setdefault("correspondence", {})["split3-e2e"] = {"compared": n, "disagreements": len(bad)}
     if bad:
         res.broken_tie("correspondence:split3-e2e", {"disagreements": len(bad), "of": n, "first": bad[0]})
-    # history-level model (Model/Sys.lean, partial commits) vs the binary: predicted vs written notes,
-    # for files outside the two known-finding families (which the model idealises away / mirrors)
-    ncmp, nbad, first = 0, 0, None
-    for sc in scs:
-        if "_observed" not in sc:
-            continue
-        n2, bad2 = S.sys_compare(sc, sc.pop("_observed"), C.run_driver, skip_paths=sc.pop("_skip", []), commit_ok=sc.pop("_commit_ok", None))
-        ncmp += n2; nbad += len(bad2)
-        if bad2 and first is None:
-            first = {"seed": sc["seed"], "disagreement": bad2[0]}
-    res.obligation("correspondence:sys-e2e (Sys model's predicted notes incl. partial commits vs notes written by the binary)", nbad == 0, "correspondence")
-    res.extra.setdefault("correspondence", {})["sys-e2e"] = {"compared": ncmp, "disagreements": nbad}
-    if nbad:
-        res.broken_tie("correspondence:sys-e2e", {"disagreements": nbad, "of": ncmp, "first": first})
+    sys_tie(res, scs)
     for sc, (failures, ncommits, _) in zip(scs, outs):
         res.count_case(json.dumps(sc["steps"], ensure_ascii=False), nontrivial=ncommits >= 3)
         res.tag([f"commits={ncommits}"] + sc["tags"])
